@@ -57,6 +57,19 @@ check("C01", "exploration",
       "adjudicated). Exceptions compared coarsely.",
       "bounded exhaustive program enumeration, differential execution (CPython vs reference GIR interpreter)", "DESIGN.md §2 C01")
 
+check("C04", "exploration",
+      "Every control skeleton with <=2 compound nodes over if/else, while(/else), for-in(/else), C-style for, do-while, switch with "
+      "fall-through, try/except/else/finally forms, break, continue, return, raise, nested def - rendered in Python (17.8 k methods) "
+      "and JavaScript, Java, C, PHP (quick: all 1-compound skeletons and the loop/switch x jump pairs, 8 k methods each; thorough: "
+      "all, 40 k each) - lowered by the real lang phase, CFGs built by the real P1 analysis; for every method every decision vector "
+      "of length <=6 (thorough 8) is executed by the reference GIR interpreter in oracle mode (each test, loop iteration, case match "
+      "and 'did this try-body statement raise' consumes one bit) and the executed-statement sequence must be a CFG path from an entry "
+      "node to the exit node; CFG nodes must belong to the method.",
+      "Trace model (which rows count as executed, when loop headers are reached) is part of the trusted base, cross-validated by C01 "
+      "for Python. Edge kinds not compared. Go excluded (frontend emits `return` outside the vocabulary, see C02). Jumps inside a try "
+      "that has a finally clause are not generated.",
+      "bounded exhaustive enumeration of programs x all branch-decision vectors, path-in-graph oracle", "DESIGN.md §2 C04")
+
 check("C15", "model_checking",
       "Part A: explicit-state BFS on the real Loader for 10 bundle-backed result families (GIR, scope hierarchy, CFG, "
       "bit vectors, stmt status, symbol/state space, symbol graph, defined/used symbols, parameter mapping, decl ids): "
